@@ -504,6 +504,24 @@ def gc4(ctx):
                 cbd_ok = True
         ctx.check(cbd_ok, key + ':unreferenced', where(b, cs.point), 'removal dominated by the true edge of can_be_deleted(first())',
                   'the oldest file can be popped without checking that nothing references it')
+        # the file handed to the caller (who unlinks it) is the one just popped -- oldest first, one at a time: a
+        # batch collected first and handed out from the other end unlinks newest-first, and an interrupted pass
+        # leaves a hole (an older file whose truncations / deletions were in the file already gone)
+        handed = True
+        outs = [e for e in b.exits() if e['kind'] in ('some', 'forward', 'value')]
+        for e in outs:
+            if e['kind'] == 'forward':
+                if e.get('call') is not cs:
+                    handed = False
+            elif e['kind'] == 'some':
+                ol = op_local(e['ops'][0]) if e.get('ops') else None
+                org = b.trace_local(ol) if ol is not None else []
+                if not org or not all((o[0] == 'call' and o[1] is cs) or (o[0] == 'place' and any(o2[0] == 'call' and o2[1] is cs for o2 in b.trace_local(o[2]['l']))) for o in org):
+                    handed = False
+            elif e['kind'] == 'value' and b.ret_ty.startswith('std::option::Option<'):
+                handed = False
+        ctx.check(handed, key + ':handed-out-as-popped', where(b, cs.point), 'the file returned is the one popped in this call',
+                  'the file handed out for deletion is not the one just popped from the front of the tracker (batched / reordered removal): files would be unlinked out of order and an interrupted GC leaves a hole in the log')
 
 
 def name_builders(ctx):
